@@ -39,6 +39,8 @@ def mk(spec):
         return (spec[1], (str(spec[1]) + 'x', float(spec[1])))
     if k == 'token':
         return TOKENS[spec[1]]
+    if k == 'bigfloat':                    # floats that differ by one unit at a large magnitude (epoch seconds), or by 1e-13 near 0
+        return 1.7e9 + spec[1] if spec[2] == 'big' else 1e-13 * spec[1]
     if k == 'nan':
         return NAN if spec[1] == 0 else float('nan')     # the shared object, or a fresh one: both differ from themselves by !=
     raise ValueError(spec)
@@ -55,6 +57,7 @@ SPEC = st.one_of(
     st.tuples(st.just('none')),
     st.tuples(st.just('token'), st.integers(0, 2)),
     st.tuples(st.just('nested'), st.integers(0, 1)),
+    st.tuples(st.just('bigfloat'), st.integers(0, 2), st.sampled_from(['big', 'tiny'])),
 ).map(list)
 
 FRESH = ('big', 'tuple', 'str', 'nested')
@@ -62,4 +65,4 @@ FRESH = ('big', 'tuple', 'str', 'nested')
 
 def fresh_kind(spec):
     """keys of these kinds are distinct objects each time they are built."""
-    return spec[0] in FRESH or (spec[0] == 'num' and spec[2] == 'float')
+    return spec[0] in FRESH or (spec[0] == 'num' and spec[2] == 'float') or spec[0] == 'bigfloat'
